@@ -128,6 +128,8 @@ class Kernel:
         hot = sched.get("hot")
         self.hot_files = frozenset(f for f in self.trace_files if hot and f.endswith("/" + hot))
         self.hot_weight = int(sched.get("hot_weight", 8))
+        # the instant right after a lock is released counts release_weight times towards the next pre-emption
+        self.release_weight = 5 if sched.get("release_bias") else 1
         self.handoff = bool(sched.get("handoff"))  # on lock release prefer a thread that was waiting for that lock
         self.delay_enabled = bool(sched.get("delay"))
         self.delay_target = None  # thread kind currently starved
@@ -385,7 +387,7 @@ class Kernel:
             return
 
     # ---------------------------------------------------------- yield points
-    def yield_point(self, site, cost=YIELD_COST):
+    def yield_point(self, site, cost=YIELD_COST, weight=1):
         if self.aborting:
             if _real_threading.current_thread() is self.driver_thread:
                 return
@@ -405,8 +407,8 @@ class Kernel:
         switch = False
         fair = False
         if self.gap > 0:
-            self.gap -= 1
-            if self.gap == 0:
+            self.gap -= weight
+            if self.gap <= 0:
                 switch = True
                 self.gap = self.S.gap(self.gap_mean)
         if self.pct_points:
@@ -507,11 +509,11 @@ class Kernel:
         """yield point at a lock release; with the hand-off bias the baton goes to a waiter of that lock."""
         me = self.current
         if me is None or self.aborting or me.no_preempt or not self.handoff:
-            return self.yield_point("release:" + lockname)
+            return self.yield_point("release:" + lockname, weight=self.release_weight)
         waiters = [t for t in self.threads if t is not me and t.alive and t.blocked is not None
                    and t.blocked[2] in ("lock:" + lockname, "relock:" + lockname) and self._is_runnable(t)]
         if not waiters or self.S.draw(2, p0=0.5) == 0:
-            return self.yield_point("release:" + lockname)
+            return self.yield_point("release:" + lockname, weight=self.release_weight)
         self.steps += 1
         self.now += YIELD_COST
         me.site = "release:" + lockname
